@@ -295,8 +295,23 @@ def with_attrs_and_defaults(level):
         yield D(("void",), "void", name="f", params=[D(("int",), "int", name="n"), D(spec, tname, name="a", init=init)])
 
 
+ARRAY_EXTENTS = ["2*3", "(2+1)*2", "48/(2*3)", "2*(8/2)", "7-(3-1)", "2+3*4", "(2+3)*4", "16/2/2", "16/(2/2)", "2*3+1", "9-2-3", "9-(2-3)", "(7)"]
+
+
+def array_expressions(level):
+    """Array extents written as expressions: the extent recorded and rendered has the value the compiler computes."""
+    for t, tn in ((("int",), "int"), (("double",), "double")):
+        for e in ARRAY_EXTENTS:
+            yield D(t, tn, name="a", arrays=[e])
+        if level >= 2:
+            for e1, e2 in itertools.product(ARRAY_EXTENTS[:6], repeat=2):
+                yield D(t, tn, name="a", arrays=[e1, e2])
+
+
 def all_decls(level):
     """The depth-<level> set: (kind, D)."""
+    for d in array_expressions(level):
+        yield "variable", d
     for d in variables(level):
         yield "variable", d
     for d in functions(level):
